@@ -141,10 +141,43 @@ DRV_OP(id_child) {
     return rc == 0 ? "ok" : "err Harness" + std::to_string(rc);
 }
 
+// id_pool <K> <N> <barrier ns> <dir> : what the exec'ed coordinator of `id_race pool` runs — it forks K workers BEFORE it has created
+// a single id itself (a pre-fork worker pool), the workers race as usual
+DRV_OP(id_pool) {
+    if (a.size() != 5) throw ProtoError("id_pool arity");
+    size_t K = tokNat(a[1]), N = tokNat(a[2]);
+    long long barrier = (long long) tokInt(a[3]);
+    std::vector<pid_t> pids;
+    for (size_t i = 0; i < K; i++) {
+        pid_t pid = fork();
+        if (pid < 0) return "err Harness8";
+        if (pid == 0) _exit(childWork(i, N, barrier, a[4]));
+        pids.push_back(pid);
+    }
+    bool allOk = true;
+    for (pid_t p : pids) { int st = 0; waitpid(p, &st, 0); if (!WIFEXITED(st) || WEXITSTATUS(st) != 0) allOk = false; }
+    return allOk ? "ok" : "err Harness9";
+}
+
+// the chain of `id_race tree`: process number `index` creates one id, forks process number index+1 (unless it is the last), and
+// then races like every other; so generation g is a fork of a fork … of a process that has used the generator at every level
+static int treeWork(size_t index, size_t K, size_t N, long long barrier, const std::string &dir) {
+    (void) nix::util::createId();
+    pid_t kid = -1;
+    if (index + 1 < K) {
+        kid = fork();
+        if (kid < 0) return 8;
+        if (kid == 0) _exit(treeWork(index + 1, K, N, barrier, dir));
+    }
+    int rc = childWork(index, N, barrier, dir);
+    if (kid > 0) { int st = 0; waitpid(kid, &st, 0); if (!WIFEXITED(st) || WEXITSTATUS(st) != 0) rc = rc ? rc : 9; }
+    return rc;
+}
+
 DRV_OP(id_race) {
     if (a.size() != 4) throw ProtoError("id_race arity");
-    const bool useExec = a[1] == "exec";
-    if (!useExec && a[1] != "fork") throw ProtoError("id_race mode");
+    const bool useExec = a[1] == "exec", pool = a[1] == "pool", tree = a[1] == "tree";
+    if (!useExec && !pool && !tree && a[1] != "fork") throw ProtoError("id_race mode");
     size_t K = tokNat(a[2]), N = tokNat(a[3]);
     std::string dir = scratch("race");
     mkdir(dir.c_str(), 0755);
@@ -158,7 +191,24 @@ DRV_OP(id_race) {
     long long barrier = sec * 1000000000LL + 250000000LL;
     std::cout.flush(); fflush(stdout); fflush(stderr);
     std::vector<pid_t> pids;
-    for (size_t i = 0; i < K; i++) {
+    if (pool || tree) {
+        // one child: the coordinator of the pool (a freshly started process) or the first generation of the tree (a fork)
+        std::string ops = dir + "/child-pool.ops";
+        if (pool) { std::ofstream o(ops.c_str()); o << "id_pool " << K << " " << N << " " << barrier << " " << dir << "\n"; }
+        pid_t pid = fork();
+        if (pid < 0) throw ProtoError("fork");
+        if (pid == 0) {
+            if (pool) {
+                int dn = open("/dev/null", O_WRONLY);
+                if (dn >= 0) dup2(dn, 1);
+                execl("/proc/self/exe", "nixdrv", ops.c_str(), dir.c_str(), (char *) nullptr);
+                _exit(7);
+            }
+            _exit(treeWork(0, K, N, barrier, dir));
+        }
+        pids.push_back(pid);
+    }
+    for (size_t i = 0; i < K && !pool && !tree; i++) {
         std::string ops = dir + "/child-" + std::to_string(i) + ".ops";
         if (useExec) { std::ofstream o(ops.c_str()); o << "id_child " << i << " " << N << " " << barrier << " " << dir << "\n"; }
         pid_t pid = fork();
@@ -191,6 +241,7 @@ DRV_OP(id_race) {
         std::remove(p.c_str());
         std::remove((dir + "/child-" + std::to_string(i) + ".ops").c_str());
     }
+    std::remove((dir + "/child-pool.ops").c_str());
     std::set<std::string> uniq(all.begin(), all.end());
     // the shared file as a reader sees it
     std::vector<std::string> sh;
